@@ -296,6 +296,23 @@ then assigns by kind), on values or pointers -/
 theorem C14_unmarshal_keeps : (realTD.find "UnmarshalText" true) = none ∧ (realTD.find "UnmarshalJSON" true) = none := by
   decide
 
+/-- the full statement of "unmarshalling stores the secret unchanged", including the squash hook -/
+def C14_unmarshal_full : Prop := ∀ s : String, plainStored s = s ∧ squashHookStored realTD s = s
+
+/-- plain positions (field, pointer, map value, slice element, nested or plainly squashed struct, a
+nested struct with its own `Unmarshal`) keep the secret -/
+theorem C14_unmarshal_plain_partial (s : String) : plainStored s = s := rfl
+
+/-- a **named** field tagged `,squash` whose struct implements `confmap.Unmarshaler` is marshalled and
+decoded again by `unmarshalerEmbeddedStructsHookFunc`: an opaque string inside it ends up holding the
+marker, whatever was written (even the empty string) -/
+theorem C14_unmarshal_squash_hook_stores_marker (s : String) : squashHookStored realTD s = Opaque.marker := rfl
+
+theorem C14_unmarshal_full_fails : ¬ C14_unmarshal_full := by
+  intro h
+  have := (h "s3cr3t").2
+  revert this; decide
+
 /-! ## config-map encoder (`confmap.Conf.Marshal`) -/
 
 section encNI
